@@ -51,6 +51,15 @@ CHECKS = {
              "every observation (plus random attempt streams up to 2^31-1 and the real retrying client against a loopback server).",
         note="Trusted: TLC, math/big projection of waits to order relations, 2 s tolerance on HTTP dates; attempts=0 (retry until success) is outside the statement.",
         technique="TLA+ specs + TLC exhaustive; exhaustive scenario replay; TLC trace validation of recorded Apply results"),
+    "C17": dict(
+        category="model_checking", design_ref="DESIGN.md 5/C17",
+        text="LockFileTimed.tla (discrete time, period P, writer lateness J, death at every instant) is checked by TLC for live-never-stale and dead-becomes-stale, "
+             "with a sensitivity run (J >= P must fail). Every death point of the real holder (after each backend call of the acquisition and of the first heartbeat "
+             "cycles, both backends) is forced through the gate in model time, and real-time rounds on the OS filesystem (holds of 6..300 periods under load, 1..8 "
+             "polling observers, death and recovery) are recorded with every sign of life time-stamped at the backend boundary; TLC judges both against the timed rules.",
+        note="Trusted: TLC, monotonic time stamps taken at the afero.Fs boundary, a harness-run control heartbeat as the reference that separates library lateness from host overload "
+             "(overloaded windows are discarded and counted, never reported), 60 ms slack on detection of a dead holder.",
+        technique="TLA+ timed spec + TLC exhaustive; gate-forced death points; TLC trace validation of real-time recordings"),
     "C19": dict(
         category="model_checking", design_ref="DESIGN.md 5/C19",
         text="TLC checks exhaustively (<=4 pages x <=2 items, <=12 calls, static and stream) that the cursor algorithm as coded "
